@@ -1,6 +1,7 @@
 package props
 
 import (
+	"fmt"
 	"verif/harness/core"
 	"verif/harness/sched"
 	"verif/harness/vsync"
@@ -32,16 +33,42 @@ func attachFine(s *sched.Sched, free bool) func() {
 func explore(c *core.Ctx, max int, run func(choices []int) []int) (int, bool) {
 	if fineMode {
 		fineWalkSeed++
-		return sched.Walks(max, c.Seed*1000003+fineWalkSeed, run), false
+		k := 0
+		n := sched.Walks(max, c.Seed*1000003+fineWalkSeed, func(choices []int) []int {
+			// every fourth walk starves one worker at its I/O events (an underlying call that stalls)
+			fineStarve = ""
+			if k%4 == 3 {
+				fineStarve = fmt.Sprintf("w%d", (k/4)%3)
+			}
+			k++
+			defer func() { fineStarve = "" }()
+			return run(choices)
+		})
+		return n, false
 	}
 	return sched.Explore(max, run)
 }
 
+// fineStarve: the worker the scheduler starves in the current walk ("" = none); runners that support it
+// hand it to the scheduler, every runner records it in the replay.
+var fineStarve string
+
+// picksOf: the replayable choice list of a run (the controller's waits are not choices).
+func picksOf(s *sched.Sched) []int {
+	out := []int{}
+	for _, p := range s.Picks {
+		if p >= 0 {
+			out = append(out, p)
+		}
+	}
+	return out
+}
+
 var fineWalkSeed int64
 
-func effective(choices, widths []int) []int {
+func effective(choices, picks []int) []int {
 	if fineMode {
-		return sched.Effective(choices, widths)
+		return picks
 	}
 	return choices
 }
